@@ -7,13 +7,14 @@ PROP = dict(
                        "rejected call changes nothing",
                        "closed reactor accepts nothing",
                        "delivery in send order",
-                       "feedback never blocks (well-formed client)"]),
+                       "feedback never blocks (well-formed client)",
+                       "answers depend on the seed id only (finish nil iff tracked, feedback 'not present' iff untracked)"]),
         dict(driver="reactorc", binary="zreactor", quick=2000, thorough=24000, shard=100,
              monitors=["no deadlock (run became quiescent)",
                        "bounded in-flight seeds at every moment of the history",
                        "quiescent accounting (tokens = tracked = accepted - finished)",
                        "every accepted seed delivered, once per accepted insert/feedback",
-                       "rejections (unknown feedback, repeated finish) exact",
+                       "rejections (unknown feedback, repeated finish) exact; a finished accepted seed has one successful finish",
                        "closed reactor accepts nothing"]),
     ],
     partial="Linearizability of the fine-grained transition system with respect to its own call-granularity runs is checked on "
